@@ -108,7 +108,7 @@ pub const ELEM_CLASSES: &[NameClass] = &[
 
 pub const ATTR_CLASSES: &[NameClass] = &[
     NameClass { tag: "plain", names: &["a", "b", "id", "name", "c", "lang", "x", "y", "z", "k"] },
-    NameClass { tag: "prefixed", names: &["ns:a", "x:id", "xsi:type", "xml:lang", "p:q", "ns:name", "x:y"] },
+    NameClass { tag: "prefixed", names: &["ns:a", "x:id", "xsi:type", "xml:lang", "p:q", "ns:name", "x:y", "xmlñs:a"] },
     NameClass { tag: "multicolon", names: &["a:b:c"] },
     NameClass { tag: "xmlns", names: &["xmlns", "xmlns:ns", "xmlns:x", "xmlns:xsi", "xmlns:p"] },
     NameClass {
@@ -123,7 +123,7 @@ pub const ATTR_CLASSES: &[NameClass] = &[
         tag: "trap",
         names: &["text", "text_content", "foo_1", "type_attr", "r_type", "a_attr", "foo_attr", "text_attr", "a_1", "a_attr_1", "b_attr"],
     },
-    NameClass { tag: "nonascii", names: &["é", "Ж", "λ", "名", "ñu", "über", "ab名前", "é名前", "Идентификатор", "xmlñs:a"] },
+    NameClass { tag: "nonascii", names: &["é", "Ж", "λ", "名", "ñu", "über", "ab名前", "é名前", "Идентификатор"] },
     NameClass { tag: "digit", names: &["a1", "x10", "A1", "b2"] },
 ];
 
@@ -176,6 +176,8 @@ pub struct Domain {
     pub chain_max: usize,
     pub min_pool: usize,
     pub max_pool: usize,
+    /// no ':' in any name and no xmlns attribute
+    pub ns_free: bool,
 }
 
 pub const ALL_CLASSES: &[(&str, u32)] = &[
@@ -225,6 +227,7 @@ impl Domain {
             chain_max: 0,
             min_pool: 2,
             max_pool: 6,
+            ns_free: false,
         }
     }
     /// benign alphabet: plain names only
@@ -256,6 +259,7 @@ fn pick_pool(
     no_prefix_clash: bool,
     forbidden: &[String],
     ns_keep_xmlns: bool,
+    ns_free: bool,
 ) -> Vec<String> {
     let mut pool: Vec<String> = Vec::new();
     if allowed.is_empty() {
@@ -281,6 +285,9 @@ fn pick_pool(
         if pool.contains(&cand) || forbidden.contains(&cand) {
             continue;
         }
+        if ns_free && (cand.contains(':') || cand == "xmlns") {
+            continue;
+        }
         if no_prefix_clash {
             let key = |s: &str| -> String {
                 if ns_keep_xmlns && is_xmlns_attr(s) {
@@ -300,7 +307,7 @@ fn pick_pool(
         // deterministic fallback: first admissible name of the first allowed class
         for (tag, _) in allowed {
             for nm in class_names(classes, tag) {
-                if !forbidden.contains(&nm.to_string()) {
+                if !forbidden.contains(&nm.to_string()) && !(ns_free && (nm.contains(':') || *nm == "xmlns")) {
                     pool.push(nm.to_string());
                     return pool;
                 }
@@ -510,9 +517,9 @@ pub fn decode_case(t: &mut Tape, dom: &Domain) -> Case {
     } else {
         (dom.min_pool + t.choose(dom.max_pool - dom.min_pool + 1), t.choose(5) + if t.chance(200) { 1 } else { 0 })
     };
-    let elems = pick_pool(t, ELEM_CLASSES, &dom.elem_classes, np, dom.no_prefix_clash, &[], false);
+    let elems = pick_pool(t, ELEM_CLASSES, &dom.elem_classes, np, dom.no_prefix_clash, &[], false, dom.ns_free);
     let forbidden: Vec<String> = if dom.attr_child_disjoint { elems.clone() } else { vec![] };
-    let attrs = if na == 0 { vec![] } else { pick_pool(t, ATTR_CLASSES, &dom.attr_classes, na, dom.no_prefix_clash, &forbidden, true) };
+    let attrs = if na == 0 { vec![] } else { pick_pool(t, ATTR_CLASSES, &dom.attr_classes, na, dom.no_prefix_clash, &forbidden, true, dom.ns_free) };
     let attrs = if na == 0 { vec![] } else { attrs };
     let mut leaf = vec![false; elems.len()];
     if dom.split_leaf_struct {
